@@ -68,6 +68,31 @@ def dq(text):
     return "".join(out)
 
 
+def esc_dq(text, mode):
+    """Double-quoted spelling with YAML escapes that decode to the same text: mode 'x' writes one ASCII character
+    (the middle one) as \\xNN, 'u' as \\uNNNN, 'all' writes every character as an escape."""
+    if not text:
+        return '""'
+    pick = len(text) // 2
+    out = ['"']
+    for i, ch in enumerate(text):
+        o = ord(ch)
+        if mode == "all" or i == pick:
+            if o < 0x80 and mode != "u":
+                out.append("\\x%02x" % o)
+            elif o < 0x10000:
+                out.append("\\u%04x" % o)
+            else:
+                out.append("\\U%08x" % o)
+        else:
+            out.append(dq(ch)[1:-1])
+    out.append('"')
+    return "".join(out)
+
+
+ESC_STYLES = {"esc_x": "x", "esc_u": "u", "esc_all": "all"}
+
+
 def sq(text):
     return "'" + text.replace("'", "''") + "'"
 
@@ -78,6 +103,8 @@ def scalar_inline(s, flow):
     st = s.style
     if s.typed:  # genuine number/bool/null written plain
         return t
+    if st in ESC_STYLES:
+        return esc_dq(t, ESC_STYLES[st])
     if st == "tagged":
         return "!!str " + (t if re.match(r"^[A-Za-z0-9][A-Za-z0-9_.]*$", t) or t == "~" else dq(t))
     if st == "plain":
@@ -187,6 +214,54 @@ def flow(node):
 def to_text(root, trailing_newline=True):
     t = "\n".join(render(root, 0))
     return t + ("\n" if trailing_newline else "")
+
+
+# ---- alternative spellings of the keys and of the texts ------------------------------------------------------
+# The recognition of a secret works on the DECODED key (`fn::secret`, `ciphertext`), so every YAML spelling of the
+# same string is the same call: plain, quoted, with \\x / \\u escapes (the raw bytes "fn::secret" then do not occur in
+# the text at all), with an explicit !!str tag, in block and in flow style.
+KEY_SPELLINGS = ["plain", "single", "double", "esc_x", "esc_u", "esc_all", "tagged"]
+VAL_SPELLINGS = ["plain", "single", "double", "esc_x", "esc_u", "esc_all", "tagged", "literal", "folded"]
+
+
+def spelled_documents(key, pad, thorough=False):
+    """Yields (form, text): one secret per document so that an escaped key leaves no raw `fn::secret` in it.
+    form 'plain': fn::secret carries plaintext; form 'cipher': it carries {ciphertext: envelope}."""
+    def wrap(node, ctx):
+        if ctx == "block":
+            vals = Map([{"key": Sc("s", "plain"), "val": node}, {"key": Sc("other", "plain"), "val": Sc("abc", "plain")}])
+        elif ctx == "flow":
+            node.flow = True
+            vals = Map([{"key": Sc("s", "plain"), "val": node}, {"key": Sc("other", "plain"), "val": Sc("abc", "plain")}])
+        else:  # inside a flow sequence in provider inputs
+            node.flow = True
+            vals = Map([{"key": Sc("p", "plain"),
+                         "val": Map([{"key": Sc("fn::open::test", "plain"),
+                                      "val": Map([{"key": Sc("k", "plain"), "val": Seq([Sc("x", "plain"), node], True)}])}])}])
+        return to_text(Map([{"key": Sc("values", "plain"), "val": vals}]))
+
+    texts = ["hunter2", "p\u00e4ssw\u00f6rd 42"]
+    n = 0
+    for ks in KEY_SPELLINGS:
+        for vs in VAL_SPELLINGS:
+            for ctx in ("block", "flow", "deep"):
+                if ctx != "block" and vs in ("literal", "folded"):
+                    continue
+                n += 1
+                t = texts[n % 2]
+                yield "plain", wrap(Map([{"key": Sc("fn::secret", ks), "val": Sc(t, vs)}]), ctx)
+    env_styles = ["plain", "single", "double", "esc_x", "tagged"]
+    for ks in KEY_SPELLINGS:
+        for cks in KEY_SPELLINGS:
+            for ctx in ("block", "flow", "deep"):
+                n += 1
+                if not thorough and ctx == "deep" and (n % 3):
+                    continue
+                t = texts[n % 2]
+                env = envelope(toy_encrypt(t.encode("utf-8"), key, pad))
+                inner = Map([{"key": Sc("ciphertext", cks), "val": Sc(env, env_styles[n % len(env_styles)])}],
+                            flow=(ctx != "block") or n % 2 == 0)
+                yield "cipher", wrap(Map([{"key": Sc("fn::secret", ks), "val": inner}]), ctx)
 
 
 # ---- random documents -------------------------------------------------------------------------------------
